@@ -57,6 +57,11 @@ def mkBn(a: A, n: int) -> B:
     return B('mkBn', a, n)
 
 
+def mkNA(n: int, a: A) -> B:
+    # a resolvable parameter *after* an unresolvable one: must not be filled from the container
+    return B('mkNA', n, a)
+
+
 class B2(B):
     def __init__(self, a: A, n: int) -> None:
         super().__init__('B2', a, n)
@@ -96,12 +101,12 @@ closure_n = _make_closure('n')
 
 SYMBOLS = {'A': A, 'B': B, 'G': G, 'G[int]': G[int], 'G[str]': G[str]}
 FACTORIES = {
-    'mkA1': mkA1, 'mkA2': mkA2, 'mkB': mkB, 'mkBn': mkBn, 'B2': B2, 'mkG': mkG, 'mkGa': mkGa,
+    'mkA1': mkA1, 'mkA2': mkA2, 'mkB': mkB, 'mkBn': mkBn, 'mkNA': mkNA, 'B2': B2, 'mkG': mkG, 'mkGa': mkGa,
     'callobj': callobj, 'closure_a': closure_a, 'closure_n': closure_n,
 }
 # reference knowledge about each factory: (ordered annotated parameter symbols, constructor of the result descriptor)
 PARAMS = {
-    'mkA1': [], 'mkA2': [], 'mkB': ['A'], 'mkBn': ['A', 'int'], 'B2': ['A', 'int'], 'mkG': [], 'mkGa': ['A'],
+    'mkA1': [], 'mkA2': [], 'mkB': ['A'], 'mkBn': ['A', 'int'], 'mkNA': ['int', 'A'], 'B2': ['A', 'int'], 'mkG': [], 'mkGa': ['A'],
     'callobj': ['B'], 'closure_a': ['A'], 'closure_n': ['int'],
 }
 PATH = 'mc.props.c19_universe'
